@@ -332,6 +332,10 @@ def run_spec(t, st: St, dom: list):
         return [], [Leaf(st.guards, "fail")]
     if k == "cut":
         return [], [Leaf(st.guards, "cut", st.W, st.stack, data="head")]
+    if k == "break":
+        return [], [Leaf(st.guards, "brk", st.W, st.stack, data=("real", 0))]
+    if k == "continue":
+        return [], [Leaf(st.guards, "cont", st.W, st.stack, data=("real", 0))]
     if k == "loopbody":
         # one unfolding of a loop from its head:  cond; if nz: body; (step); cut   else: leave the loop
         _, cond_t, body_t, step_t = t
